@@ -25,11 +25,11 @@ from . import a_common as A
 from . import c05
 
 FSX = os.path.join(core.BIN, "fsx")
-COLLISIONS = ["none", "file", "dir", "dangling", "dangling_into_dir", "link_to_file"]
+COLLISIONS = ["none", "file", "empty_file", "dir", "dangling", "dangling_into_dir", "link_to_file"]
 # the target IS (another route to) the source: symlink to it (absolute / relative), hard link of it, or a symlinked
 # parent directory under DIR that makes the target path resolve to the source itself
 SELF_COLLISIONS = ["link_to_source_abs", "link_to_source_rel", "hardlink_of_source", "symlinked_parent"]
-MUST_REFUSE = ("file", "dir", "link_to_file", "dangling", "dangling_into_dir") + tuple(SELF_COLLISIONS)
+MUST_REFUSE = ("file", "empty_file", "dir", "link_to_file", "dangling", "dangling_into_dir") + tuple(SELF_COLLISIONS)
 
 
 def gen_component(rng):
@@ -150,6 +150,8 @@ def gen_cli_scenario(rng, sid, base, variant, collisions):
         rel = scn.move_dir + a                     # DIR/<absolute path without the root>
         if col == "file":
             extra.append(("file", rel, b"precious-%d" % i))
+        elif col == "empty_file":
+            extra.append(("file", rel, b""))          # a ZERO-LENGTH user file is something that exists, too
         elif col == "dir":
             extra.append(("dir", rel))
         elif col == "dangling":
@@ -315,11 +317,11 @@ def run(ctx):
                   ("dangling", "dangling"), ("file", "link_to_file"), ("dangling_into_dir", "none"), ("dir", "dangling_into_dir"),
                   ("link_to_source_abs", "none"), ("link_to_source_rel", "hardlink_of_source"), ("hardlink_of_source", "link_to_source_abs"),
                   ("symlinked_parent", "symlinked_parent"),
-                  ("empty_dirs", "empty_dirs"), ("empty_dirs", "file"), ("private_dirs", "none"), ("private_dirs", "file"), ("empty_dir_root", "none"), ("sibling_part", "file")]
+                  ("empty_dirs", "empty_dirs"), ("empty_dirs", "file"), ("private_dirs", "none"), ("private_dirs", "file"), ("empty_file", "none"), ("file", "empty_file"), ("empty_dir_root", "none"), ("sibling_part", "file")]
         if not ctx.quick:
             combos += [(x, y) for x in COLLISIONS + SELF_COLLISIONS[:3] for y in COLLISIONS + SELF_COLLISIONS[:3] if (x, y) not in combos]
         n = 0
-        via_combos = [("file", "none"), ("none", "none"), ("dir", "dangling"), ("link_to_file", "file"), ("sibling_part", "file")]
+        via_combos = [("file", "none"), ("none", "none"), ("dir", "dangling"), ("link_to_file", "file"), ("sibling_part", "file"), ("empty_file", "none")]
         for variant in ("outside", "inside", "relative", "other_mount", "via_missing", "via_missing2", "via_existing",
                         "via_missing_other_mount", "via_link"):
             for col in (combos if not variant.startswith("via_") or not ctx.quick else via_combos):
